@@ -226,16 +226,17 @@ theorem mem_somes_iff_itemAt {S : List (Option Item)} {z : Item} :
   · rintro ⟨j, hj⟩
     exact ⟨some z, List.mem_of_getElem? (itemAt_eq_some.mp hj), rfl⟩
 
-theorem settledMonotone_nil (f : List Key) : settledMonotone f [] = true := by
+theorem settledMonotone_nil (D : List Key → List Key → Diff) (f : List Key) : settledMonotone D f [] = true := by
   unfold settledMonotone settled
   simp
 
 section
-variable {f t : List Key} {old : List Item} {rem : List Nat} {U : List DiffOpMove} {ads : List DiffOpAdd}
+variable {D : List Key → List Key → Diff} {f t : List Key} {old : List Item} {rem : List Nat} {U : List DiffOpMove}
+  {ads : List DiffOpAdd}
 
 /-- the items stored before the DOM phases are exactly the settled old items (no assumption on the order) -/
-theorem Ctx.mem_somes_storage4 (c : Ctx f t old rem U ads) (hU : U = (unpackMoves (diff f t)).1) {z : Item} :
-    z ∈ somes (storage4 (old.map some) rem U ads.length) ↔ z ∈ old ∧ settled f t z.key = true := by
+theorem Ctx.mem_somes_storage4 (c : Ctx f t old rem U ads) (hU : U = (unpackMoves (D f t)).1) {z : Item} :
+    z ∈ somes (storage4 (old.map some) rem U ads.length) ↔ z ∈ old ∧ settled D f t z.key = true := by
   rw [mem_somes_iff_itemAt]
   constructor
   · rintro ⟨j, hj⟩
@@ -265,13 +266,13 @@ theorem Ctx.final_somes (c : Ctx f t old rem U ads) (bs next : Nat) :
 
 /-- **necessity**: if the pipeline leaves the children in the new order, `settledMonotone` holds -/
 theorem Ctx.dom_order_exact (c : Ctx f t old rem U ads) (hn : ∀ a ∈ ads, a.mode = .normal)
-    (hU : U = (unpackMoves (diff f t)).1)
+    (hU : U = (unpackMoves (D f t)).1)
     (bs : Nat) (marker : NodeId) (w : World) (pre post : List NodeId)
     (hw : w.storage = old.map some) (hk : w.kids = pre ++ blocks old ++ marker :: post)
     (hnd : w.kids.Nodup) (hne : ∀ z ∈ old, z.nodes ≠ []) (hfr : ∀ n ∈ w.kids, n < w.next) (hbs : 0 < bs)
     (hord : (pipeline bs marker t rem U ads ads.length w).kids
       = pre ++ blocksOf (pipeline bs marker t rem U ads ads.length w).storage ++ marker :: post) :
-    settledMonotone f t = true := by
+    settledMonotone D f t = true := by
   have hkn : (pre ++ blocks old ++ marker :: post).Nodup := hk ▸ hnd
   have hbo : (blocks old).Nodup := (List.nodup_append.mp (List.nodup_append.mp hkn).1).2.1
   have hold : old.Nodup := nodup_of_blocks_nodup hbo hne
@@ -304,7 +305,7 @@ theorem Ctx.dom_order_exact (c : Ctx f t old rem U ads) (hn : ∀ a ∈ ads, a.m
     · simp [hzt, this, hz]
   have hkids1_nodup : (kids1 w rem).Nodup := (unmount_fold_nodup _ hnd).1
   have hkids1_sub : ∀ n ∈ kids1 w rem, n ∈ w.kids := (unmount_fold_nodup _ hnd).2
-  have hmem4 : ∀ z, z ∈ somes (storage4 (old.map some) rem U ads.length) ↔ z ∈ old ∧ settled f t z.key = true :=
+  have hmem4 : ∀ z, z ∈ somes (storage4 (old.map some) rem U ads.length) ↔ z ∈ old ∧ settled D f t z.key = true :=
     fun z => c.mem_somes_storage4 hU
   rw [hw] at hord
   -- members of the placement list
@@ -318,7 +319,7 @@ theorem Ctx.dom_order_exact (c : Ctx f t old rem U ads) (hn : ∀ a ∈ ads, a.m
     · exact Or.inr hq
   -- a DOM-moved item is an old item whose key is in `t` and is not settled
   have hdom : ∀ (m : DiffOpMove) (x : Item), m ∈ U → m.moveInDom = true → old[m.from_]? = some x →
-      x ∈ old ∧ x.key ∈ t ∧ settled f t x.key = false ∧ t[m.to_]? = some x.key := by
+      x ∈ old ∧ x.key ∈ t ∧ settled D f t x.key = false ∧ t[m.to_]? = some x.key := by
     intro m x hm hd hx
     obtain ⟨_, k, hk1, hk2⟩ := (c.sp.mem_pairs c.ht).mp ⟨m, hm, rfl, rfl⟩
     have hkx : k = x.key := by
@@ -343,12 +344,12 @@ theorem Ctx.dom_order_exact (c : Ctx f t old rem U ads) (hn : ∀ a ∈ ads, a.m
   have hlen4 : (storage4 (old.map some) rem U ads.length).length = f.length + ads.length := by
     simp [storage4, storage2, c.old_length]
   -- the settled items, in the old order
-  have hSmem : ∀ z, z ∈ old.filter (fun it => settled f t it.key) ↔ z ∈ old ∧ settled f t z.key = true :=
+  have hSmem : ∀ z, z ∈ old.filter (fun it => settled D f t it.key) ↔ z ∈ old ∧ settled D f t z.key = true :=
     fun z => List.mem_filter
   have hlen4 : (storage4 (old.map some) rem U ads.length).length = f.length + ads.length := by
     simp [storage4, storage2, c.old_length]
-  have shX : ShapeX pre post marker (old.filter fun it => settled f t it.key)
-      (old.filter fun it => settled f t it.key) (old.filter fun z => t.contains z.key)
+  have shX : ShapeX pre post marker (old.filter fun it => settled D f t it.key)
+      (old.filter fun it => settled D f t it.key) (old.filter fun z => t.contains z.key)
       (kids1 w rem, storage4 (old.map some) rem U ads.length)
       ((placements bs t w rem U ads).map (·.2)) := by
     refine ⟨hkids1, hkids1_nodup, ?_, ?_, ?_, ?_⟩
@@ -359,13 +360,13 @@ theorem Ctx.dom_order_exact (c : Ctx f t old rem U ads) (hn : ∀ a ∈ ads, a.m
     · rw [List.filter_filter]
       apply List.filter_congr
       intro z hz
-      by_cases hs : settled f t z.key = true
+      by_cases hs : settled D f t z.key = true
       · have : z.key ∈ t := ((c.settled_iff hU).mp hs).2.1
         simp [hSmem, hz, hs, this]
       · simp [hSmem, hs]
     · intro z hz
       obtain ⟨hzo, hzt⟩ := List.mem_filter.mp hz
-      by_cases hs : settled f t z.key = true
+      by_cases hs : settled D f t z.key = true
       · exact Or.inl ((hmem4 z).mpr ⟨hzo, hs⟩)
       · right
         obtain ⟨i, hi⟩ := List.mem_iff_getElem?.mp hzo
@@ -393,7 +394,7 @@ theorem Ctx.dom_order_exact (c : Ctx f t old rem U ads) (hn : ∀ a ∈ ads, a.m
       · exact hne _ (hdom m q.2 hm hd hx').1
       · exact (hnew q hq'').2.2.1
     · intro q hq
-      have hq1 : ∃ k, t[q.1]? = some k ∧ settled f t k = false := by
+      have hq1 : ∃ k, t[q.1]? = some k ∧ settled D f t k = false := by
         rcases hmemP q hq with ⟨m, hm, hd, hto', hx⟩ | hq'
         · obtain ⟨_, _, h3, h4⟩ := hdom m q.2 hm hd hx
           exact ⟨_, hto' ▸ h4, h3⟩
@@ -432,7 +433,7 @@ theorem Ctx.dom_order_exact (c : Ctx f t old rem U ads) (hn : ∀ a ∈ ads, a.m
         exact absurd (hfr n (hkids1_sub n hk1)) (Nat.not_lt.mpr (h1 n hn'))
     · rw [placements, hw]
       exact c.placements_disjoint bs w.next hbo hold hold_lt
-  have hSX : ∀ q ∈ placements bs t w rem U ads, q.2 ∉ old.filter fun it => settled f t it.key := by
+  have hSX : ∀ q ∈ placements bs t w rem U ads, q.2 ∉ old.filter fun it => settled D f t it.key := by
     intro q hq hS
     obtain ⟨h1, h2⟩ := (hSmem _).mp hS
     rcases hmemP q hq with ⟨m, hm, hd, _, hx⟩ | hq'
@@ -475,12 +476,12 @@ theorem Ctx.dom_order_exact (c : Ctx f t old rem U ads) (hn : ∀ a ∈ ads, a.m
       · rw [List.getElem?_eq_none (by rw [hlenF]; omega), List.getElem?_eq_none (by omega)]; rfl
     have hfiltF : (somes (placeAll marker (placements bs t w rem U ads)
         (kids1 w rem, storage4 (old.map some) rem U ads.length)).2).filter
-          (fun z => decide (z ∈ old.filter fun it => settled f t it.key))
+          (fun z => decide (z ∈ old.filter fun it => settled D f t it.key))
         = (somes (placeAll marker (placements bs t w rem U ads)
-        (kids1 w rem, storage4 (old.map some) rem U ads.length)).2).filter (fun z => settled f t z.key) := by
+        (kids1 w rem, storage4 (old.map some) rem U ads.length)).2).filter (fun z => settled D f t z.key) := by
       apply List.filter_congr
       intro z hz
-      by_cases hs : settled f t z.key = true
+      by_cases hs : settled D f t z.key = true
       · -- a stored item with a settled key is the old item of that key
         obtain ⟨j, hj⟩ := List.mem_iff_getElem?.mp hz
         have hjlt : j < t.length := by
@@ -496,8 +497,8 @@ theorem Ctx.dom_order_exact (c : Ctx f t old rem U ads) (hn : ∀ a ∈ ads, a.m
       · simp [hSmem, hs]
     rw [hfiltF] at hso
     have h1 := congrArg (List.map (·.key)) hso
-    have e1 : ∀ l : List Item, (l.filter (fun z => settled f t z.key)).map (·.key)
-        = (l.map (·.key)).filter (settled f t) := fun l => by rw [List.filter_map]; rfl
+    have e1 : ∀ l : List Item, (l.filter (fun z => settled D f t z.key)).map (·.key)
+        = (l.map (·.key)).filter (settled D f t) := fun l => by rw [List.filter_map]; rfl
     rw [e1, e1, hkeysF, c.hold] at h1
     unfold settledMonotone
     simp [h1]
@@ -505,22 +506,22 @@ theorem Ctx.dom_order_exact (c : Ctx f t old rem U ads) (hn : ∀ a ∈ ads, a.m
 end
 
 /-- the DOM order after `rebuild` is right **iff** `settledMonotone` holds -/
-theorem rebuild_ordered_iff (s : KState) (to : List Key) (pre post : List NodeId) (hs : Wf s)
+theorem rebuild_ordered_iff (D : List Key → List Key → Diff) (hD : DiffLike D) (s : KState) (to : List Key) (pre post : List NodeId) (hs : Wf s)
     (hm : Mounted pre post s) (hto : to.Nodup) :
-    (rebuild s to).w.kids = pre ++ blocksOf (rebuild s to).w.storage ++ (rebuild s to).marker :: post
-      ↔ settledMonotone s.hashed to = true := by
+    (rebuildWith D s to).w.kids = pre ++ blocksOf (rebuildWith D s to).w.storage ++ (rebuildWith D s to).marker :: post
+      ↔ settledMonotone D s.hashed to = true := by
   constructor
   · intro hord
     by_cases hte : to = []
-    · subst hte; exact settledMonotone_nil _
+    · subst hte; exact settledMonotone_nil _ _
     · have hw : ({ s.w with log := {} } : World).storage = (somes s.w.storage).map some := hs.all_some
-      obtain ⟨rem, U, ads, c, hn, hU, heq⟩ := applyDiff_spec s.hashed to (somes s.w.storage) hs.nodup hto
+      obtain ⟨rem, U, ads, c, hn, hU, heq⟩ := applyDiff_spec D hD s.hashed to (somes s.w.storage) hs.nodup hto
         hs.keys hte s.bs s.marker { s.w with log := {} } hw
-      have hwr : (rebuild s to).w = pipeline s.bs s.marker to rem U ads ads.length { s.w with log := {} } := heq
+      have hwr : (rebuildWith D s to).w = pipeline s.bs s.marker to rem U ads ads.length { s.w with log := {} } := heq
       rw [hwr] at hord
       exact c.dom_order_exact hn hU s.bs s.marker { s.w with log := {} } pre post hw hm.ordered
         hm.nodup hm.nonempty hm.fresh hm.bs_pos hord
   · intro hsm
-    exact (rebuild_mounted s to pre post hs hm hto hsm).ordered
+    exact (rebuild_mounted D hD s to pre post hs hm hto hsm).ordered
 
 end Leptos.Keyed
